@@ -30,7 +30,8 @@ RULE = (
     "tier-direct reads for MultiTierCache and external backing-store writes for SoftTTLCache) over 3-8 keys against one real "
     "cache layer of capacity 1-4 in front of a real KVStore with read/write/delete latency > 0; think times, latencies and "
     "TTLs lie on a microsecond grid so operations overlap and TTL zone boundaries are hit exactly; a final auditor reads every "
-    "key (and flushes) at quiescence. non-trivial = at least two client operations overlapped in time AND at least one "
+    "key (and flushes) at quiescence. 10 % of the cases drive a PageCache (1-4 clients x read_page/write_page/flush over 4-9 page "
+    "ids, capacity 1-5, read-ahead 0-3). non-trivial = at least two client operations overlapped in time AND at least one "
     "capacity eviction / promotion / stale-or-expired TTL zone read happened. distinct = distinct digests of "
     "(operation history with invoke/return stamps and results, engine delivery log)"
 )
@@ -43,6 +44,7 @@ REAL = [
     "happysimulator.components.datastore.soft_ttl_cache.SoftTTLCache (incl. its _sttl_refresh events)",
     "happysimulator.components.datastore.kv_store.KVStore (backing store, latency > 0)",
     "happysimulator.components.datastore.cache_warming.CacheWarmer (extra reader in some CachedStore runs)",
+    "happysimulator.components.infrastructure.page_cache.PageCache (read-ahead 0-3, capacity 1-5, disk latencies > 0)",
     "happysimulator.core.simulation.Simulation / ProcessContinuation (scheduler of the client processes)",
 ]
 STUBS = [
@@ -66,8 +68,10 @@ ASSUMPTIONS = [
     "invalidations among the interleavings and says 'never discarded'); recorded as its own narrow finding",
     "MultiTierCache tiers are write-through CachedStores sharing the backing store; lower tiers are only ever populated by "
     "reading through the tier object directly (op 'tget'), since MultiTierCache itself never demotes",
-    "TTLEviction always gets clock_func = simulated clock; PageCache / write_policies.py classes are not part of the statement "
-    "(no cached values / not wired to any cache) and are not exercised",
+    "TTLEviction always gets clock_func = simulated clock; write_policies.py classes are not wired to any cache and are not exercised",
+    "PageCache (named in the anchors) holds page ids and dirty bits, no values: judged on capacity, on 'a dirty page never leaves "
+    "the dirty state without an accounted disk write-back' and on the flush post-condition; contents are not versioned, so a "
+    "write absorbed by a write-back that is already in flight is not detected",
 ]
 EXPECTED_PROBES = [
     "probe.eviction", "probe.cache_full", "probe.read_overlapped_write_same_key", "probe.miss_fill",
@@ -219,6 +223,9 @@ def gen(rng, tier):
             else:
                 noinv, lateflush, sc["klass"] = True, True, "cs-wb-no-invalidate-flush-at-quiescence"
             sc["cap"] = rng.randrange(1, 5)
+            if rng.random() < 0.2:
+                # slow backing reads: a miss overlaps whole flush/delete/put episodes and caches what it finds
+                sc["lat"]["r"] = rng.choice((2000, 3000, 5000))
             weights = {"get": 10, "put": 8, "delete": 2.5, "inval": 0 if noinv else 2,
                        "inval_all": 0 if noinv else 0.4, "flush": 0 if lateflush else 2.5}
         sc["clients"] = _clients(rng, fam, nk, {k: v for k, v in weights.items() if v}, own=own)
